@@ -113,7 +113,8 @@ def parse_harness(text):
             o = kv(w, 1)
             model = {"count_good": int(o["count_good"]), "count_bad": int(o["count_bad"]), "count_minimal": int(o["count_minimal"]),
                      "count_calls": int(o["count_calls"]), "bits": int(o["bits"]), "error": h2d(o["error"]),
-                     "scaled_error": h2d(o["scaled_error"]), "max_pct": h2d(o["max_pct"]), "punch": []}
+                     "scaled_error": h2d(o["scaled_error"]), "max_pct": h2d(o["max_pct"]), "punch": [],
+                     "selfcheck": int(o.get("selfcheck", 1)), "kode": int(o.get("kode", 0))}
             cur["models"].append(model)
         elif t in ("X", "MIN", "MAX", "DSAVE"):
             model[t] = [h2d(x) for x in w[2:]]
@@ -497,15 +498,31 @@ def eval_case(ctx, exe, case, oracle_bits=11):
                 nz |= 1 << i
         if nz != m["bits"]:
             out["corr"].append({"what": "saved model bits differ from the non-zero pattern of the reported vector", "bits": m["bits"], "nz": nz})
+        mcorr = any(c.get("model") == k for c in out["corr"]) or any("cell" in c for c in out["corr"])
         for b in direct_oracle(su, m, totals, tol_print):
             kind = "range" if b.startswith("range") else ("sign" if "-only" in b else ("alpha" if "fraction" in b else "element"))
             mv.append({"kind": kind, "model": k, "text": b})
+        if not m["selfcheck"] and not diffs and not mcorr:
+            # the vector handed to print_model fails the engine's own (never called) test_cl1_solution against the real
+            # my_array, and the matrix itself agrees with the model: the defect is in accepting the LP result
+            if mv:
+                out["findings"].append({"key": "cl1-unverified", "model": k, "bits": m["bits"], "kode_last_lp": m["kode"],
+                                        "text": "; ".join(v["text"] for v in mv)[:300]})
+            out["stats"]["unverified_models"] = out["stats"].get("unverified_models", 0) + 1
+            mv = []
         if k in capped:
             out["findings"].append({"key": "range-cap", "model": k, "bits": m["bits"], "text": "; ".join(capped[k])[:300]})
         # known class: the range LP failed (cl1 kode != 0 inside range())
         if rerr[k] is None and any(v["kind"] == "range" for v in mv):
             out["corr"].append({"what": "printed output has no table for this model; range errors cannot be attributed", "model": k})
-        if rerr[k]:
+        if o["range"] and not rerr[k] and rerr[k] is not None and m["selfcheck"] and k not in capped:
+            out["stats"]["range_judged"] = out["stats"].get("range_judged", 0) + 1
+        if not rerr[k] and rerr[k] is not None and m["selfcheck"] and not diffs and not mcorr and any(v["kind"] == "range" for v in mv):
+            out["stats"]["range_silent"] = out["stats"].get("range_silent", 0) + 1
+            out["findings"].append({"key": "range-silent", "model": k, "bits": m["bits"],
+                                    "text": "; ".join(v["text"] for v in mv if v["kind"] == "range")[:300]})
+            mv = [v for v in mv if v["kind"] != "range"]
+        if rerr[k] and not mcorr:
             if any(v["kind"] == "range" for v in mv):
                 out["findings"].append({"key": "range-lp-error", "model": k, "bits": m["bits"], "messages": rerr[k],
                                         "text": "; ".join(v["text"] for v in mv if v["kind"] == "range")[:300]})
@@ -539,7 +556,9 @@ def eval_case(ctx, exe, case, oracle_bits=11):
         out["stats"]["oracle_ok"] = oracle_ok(su["oracle"], ns + np_)
         if real != pred:
             out["corr"].append({"what": "search differs from solve_inverse", "real": real, "model": pred})
-    if o["minimal"]:
+    if o["minimal"] and out["stats"].get("unverified_models"):
+        out["stats"]["antichain_not_judged"] = True
+    elif o["minimal"]:
         for a in range(len(reported)):
             for b in range(len(reported)):
                 if a != b and reported[a] | reported[b] == reported[b] and reported[a] != reported[b]:
@@ -634,7 +653,8 @@ def run(ctx):
         futs = [ex.submit(eval_case, ctx, exe, c, 11 if ctx.tier == "quick" else 12) for c in cases]
         for c, f in zip(cases, futs):
             results.append((c, f.result()))
-    nmodels = nmat = nsearch = nrangeerr = noracle_ok = nindep = 0
+    nmodels = nmat = nsearch = nrangeerr = noracle_ok = nindep = nunver = njudged = nsilent = 0
+    first_silent = first_unver = None
     nontrivial = set()
     corr_broken = []
     seen_findings = {}
@@ -660,6 +680,13 @@ def run(ctx):
         noracle_ok += 1 if st.get("oracle_ok") else 0
         nindep += 1 if "totals_reldiff" in st else 0
         nrangeerr += st.get("range_lp_errors", 0)
+        nunver += st.get("unverified_models", 0)
+        njudged += st.get("range_judged", 0)
+        nsilent += st.get("range_silent", 0)
+        if st.get("range_silent") and first_silent is None:
+            first_silent = c
+        if st.get("unverified_models") and first_unver is None:
+            first_unver = c
         if r["nmodels"]:
             nontrivial.add(hash(c["input"]))
         if r["nmodels"] and len(ctx.cov["samples"]) < 3:
@@ -670,7 +697,10 @@ def run(ctx):
                 seen_findings[fnd["key"]] += 1
                 continue
             seen_findings[fnd["key"]] = 1
-            what = {"range-cap": "a reported value beyond the -range limit (default 1000) lies outside its reported min..max "
+            what = {"cl1-unverified": "a reported vector fails the engine's own test_cl1_solution() (never called by solve_with_mask / "
+                                      "minimal_solve, whose final solve_with_mask return code is ignored): not a mole-balance model",
+                    "range-silent": "range LP returned kode 0 but min..max does not bracket the (verified) reported value",
+                    "range-cap": "a reported value beyond the -range limit (default 1000) lies outside its reported min..max "
                                  "(the range LPs minimise |x -/+ range_max|; documented limit)",
                     "range-lp-error": "range(): cl1 returned kode != 0 ('Error in subroutine range'), min/max are reported anyway "
                                       "and do not bracket the value"}[fnd["key"]]
@@ -695,6 +725,17 @@ def run(ctx):
     ctx.cov["oracle_tables_satisfying_OracleOK"] = noracle_ok
     ctx.cov["problems_with_independent_totals"] = nindep
     ctx.cov["range_lp_error_messages"] = nrangeerr
+    ctx.cov["models_failing_engine_selfcheck"] = nunver
+    ctx.cov["range_models_judged"] = njudged
+    ctx.cov["range_models_silently_not_bracketing"] = nsilent
+    # the two solver-accuracy classes are rare on the unchanged tree (< 10 % of the judged models in every seed tried);
+    # when they become the rule the cause is not solver round-off: report the first instance as a violation
+    if not ctx.violations and njudged >= 8 and nsilent > 0.3 * njudged:
+        ctx.violation("reported min..max does not bracket the reported value in %d of %d models with verified vectors and no LP error"
+                      % (nsilent, njudged), {"db": first_silent["db"], "input": first_silent["input"]})
+    if not ctx.violations and nmodels >= 8 and nunver > 0.3 * nmodels:
+        ctx.violation("%d of %d reported models fail the engine's own test_cl1_solution" % (nunver, nmodels),
+                      {"db": first_unver["db"], "input": first_unver["input"]})
     ctx.cov["input_distribution"] = hist
     ctx.cov["finding_instances"] = seen_findings
     ctx.cov["traces_validated_against_impl"] = nmat
@@ -755,5 +796,5 @@ MANIFEST = dict(
          "counters of solve_inverse; -minimal antichain on reported bit sets.",
     note="Trusted: Lean kernel, harness/ph_inverse.cpp (friend access, resolution of reaction tokens to rows), tools/props/c18.py "
          "(tolerances: matrix 1e-12 rel, balances max(1e-8, 1e4*toler), ranges max(1e-6, 1e4*toler)). cl1 is an oracle (not verified); "
-         "isotope rows/columns are not modelled (ex18-type problems are counted only); INVERSE_CL1MP is not compiled in. Known finding: range-lp-error.",
+         "isotope rows/columns are not modelled (ex18-type problems are counted only); INVERSE_CL1MP is not compiled in. Findings: range-lp-error (known), cl1-unverified, range-silent, range-cap.",
 )
